@@ -516,6 +516,10 @@ impl<T: Types> RaftLog<T> {
         &mut self,
         rec: &WALRecord<T>,
     ) -> Result<Segment, io::Error> {
+        // Validate against the current state before journalling, so that a
+        // refused record leaves no trace in the WAL, the index or the cache.
+        self.state_machine.log_state.clone().apply(rec)?;
+
         WAL::append(&mut self.wal, rec)?;
         StateMachine::apply(
             &mut self.state_machine,
